@@ -186,16 +186,18 @@ def run(rep):
     rep.rule('R01.d', 'truth-table equality of the per-phase availability sets; pairing table')
     rep.rule('R01.e', 'sibling cross-check of signature accessors; parameter-kind exhaustiveness')
     rep.rule('R01.f', 'sequence normal forms: both consumers see funcs++[final]; codegen recursion is aligned')
-    check_eager_binding(rep, 'R01.a')
-    rep.floor('R01.a', 12)
-    chain.check_unresolved_raises(rep, 'R01.b')
-    rep.floor('R01.b', 5)
-    chain.check_chain_argspec(rep, 'R01.c')
-    chain.check_make_chain(rep, 'R01.c', 'R01.f')
-    rep.floor('R01.c', 8)
-    chain.check_phase_sets(rep, 'R01.d', rule_pair='R01.d', rule_order=None, rule_core_env='R01.d')
-    rep.floor('R01.d', 12)
-    chain.check_accessors(rep, 'R01.e')
-    rep.floor('R01.e', 10)
-    chain.check_generated_level(rep, 'R01.f', 'R01.f', 'R01.f', 'R01.f', 'R01.f')
-    rep.floor('R01.f', 10)
+    g = rep.guard
+    g(check_eager_binding, rep, 'R01.a')
+    g(chain.check_unresolved_raises, rep, 'R01.b')
+    g(chain.check_chain_argspec, rep, 'R01.c')
+    g(chain.check_make_chain, rep, 'R01.c', 'R01.f')
+    g(chain.check_phase_sets, rep, 'R01.d', rule_pair='R01.d', rule_order=None, rule_core_env='R01.d')
+    g(chain.check_accessors, rep, 'R01.e')
+    g(chain.check_generated_level, rep, 'R01.f', 'R01.f', 'R01.f', 'R01.f', 'R01.f')
+    if not rep.gaps:
+        rep.floor('R01.a', 12)
+        rep.floor('R01.b', 5)
+        rep.floor('R01.c', 8)
+        rep.floor('R01.d', 12)
+        rep.floor('R01.e', 10)
+        rep.floor('R01.f', 10)
